@@ -121,9 +121,12 @@ CHECKS = {
         technique="Coq proof (well-formedness for every analysed text; exact extents for every valid program by composition with the C04 round trip) over a Gallina model of the folding handler + correspondence through the binary"),
     "C09": dict(
         category="other",
-        text="Machine-checked (Props/C09.v, 17 theorems) over the model of formatting.rs (Model/Format.v). For EVERY abstract "
-             "program of the grammar without comments - and with comments in leading positions (in front of type / proc / var / a "
-             "parameter / the first token of a statement) - every token vector with its kinds, and every option setting: the "
+        text="Machine-checked (Props/C09.v, 26 theorems) over the model of formatting.rs (Model/Format.v). For EVERY valid program "
+             "with comments in ANY gap, every layout and option setting, the formatted text lexes to the same NON-COMMENT token "
+             "kinds and literal values, without lexical error (C09_tokens_any, C09_document_any, C09_total_any: the printer is the "
+             "abstract printer pp_prog, its output the rendering of `kept p` - unprinted comment slots emptied, hoisted comments "
+             "moved - which has the same code tokens in order). In detail, for programs without comments or with comments in "
+             "leading positions: the "
              "formatter emits exactly the spellings of the program's tokens, in order, separated only by whitespace that is "
              "non-empty wherever two spellings would otherwise merge (C09_structure, C09_structure_lead, by structural induction "
              "over the abstract syntax), hence the formatted text lexes to the same non-comment token kinds AND literal values "
@@ -131,8 +134,8 @@ CHECKS = {
              "exactly the whole document (C09_whole_edit, C09_whole_document_covers); and the formatted text of every comment-free "
              "syntactically valid program, well-typed or not, is analysed to the same tree and table and yields the same "
              "diagnostics - same messages, same order, same token-index ranges (C09_same_diagnostics: the analysis reads kinds "
-             "only). Stated, not proved: programs with comments in the gaps where the printer hoists or loses them (C10), and "
-             "equality of diagnostics for programs with comments. Decided per input there: "
+             "only). Stated, not proved: equality of diagnostics for programs with comments (which comments "
+             "survive is C10's business: C09_comments_any characterises them exactly). Decided per input there: "
              "model = real formatter on generated programs x layouts x options, and an implementation oracle re-lexes the "
              "formatted text with the real lexer, re-opens it (same diagnostics up to layout) and checks the edit range.",
         design_ref="DESIGN.md section 5, C09",
@@ -152,20 +155,22 @@ CHECKS = {
         design_ref="DESIGN.md section 5, C10",
         technique="Coq refutation witness + proof that leading comments are kept exactly once + exhaustive per-program gap campaign discriminating known gap kinds"),
     "C11": dict(
-        category="other",
-        text="Machine-checked (Props/C11.v, 16 theorems) over the models of the formatter and the parser. For ALL documents: "
-             "the handler answers null exactly when the formatted text equals the document; the output is canonical - two token "
-             "vectors with the same kinds (any whitespace) format to the same text (C11_canonical); indentation honours the "
-             "options: every line of a member of a block / branch / loop body / procedure body starts with one more unit (tabSize "
-             "spaces or one tab) than its parent, by induction over nesting. For EVERY abstract program without comments or with "
-             "comments in leading positions, every layout and option setting: formatting the formatted text again answers null "
-             "(C11_idempotent_comment_free, C11_idempotent_lead, C11_idempotent_document*; composes the structural theorem of C09, "
-             "lexical conformance and the parser round trip). Stated, not proved: idempotence for programs with comments in the "
-             "gaps where the printer hoists or loses them. The check decides those per input: format, apply with an independent "
-             "edit model, format again => null, for all 10 option settings, two-layout canonicity, exact depth x unit per line, "
-             "and history independence (same text, different options in a row, one server).",
+        category="proof",
+        text="Machine-checked (Props/C11.v, 20 theorems) over the models of the formatter and the parser; every clause of the "
+             "property is a theorem. For ALL documents: the handler answers null exactly when the formatted text equals the "
+             "document (C11_null_iff); the output is canonical - two token vectors with the same kinds (any whitespace) format to the "
+             "same text (C11_canonical, kinds-only relational proof over parser and printers); indentation honours the options: "
+             "every line of a member of a block / branch / loop body / procedure body starts with one more unit (tabSize spaces or "
+             "one tab) than its parent, by induction over nesting (C11_indent_*, C11_block_lines, C11_nested_lines, C11_proc_*). "
+             "For EVERY valid program with comments in ANY gap, every layout and option setting: formatting the formatted text "
+             "again answers null (C11_idempotent_any, C11_idempotent_document_any: the printer's output is the rendering of `kept "
+             "p`, a program with comments in leading positions only, whose own formatting is the same text - composes the "
+             "structural theorem of C09, lexical conformance and the parser round trip). Tie to the code and failing-input search: "
+             "model = real formatter; format, apply with an independent edit model, format again => null, for all 10 option "
+             "settings, two-layout canonicity, exact depth x unit per line, history independence (same text, different options in a "
+             "row, one server), answers along edit histories.",
         design_ref="DESIGN.md section 5, C11",
-        technique="Coq proof (kinds-only canonicity, indentation by induction over nesting, idempotence via the structural theorem + parser round trip) + correspondence and format-twice oracle through the binary"),
+        technique="Coq proof (null iff unchanged, kinds-only canonicity, indentation by induction over nesting, idempotence for every valid program via the structural theorem + parser round trip) + correspondence and format-twice oracle through the binary"),
     "C02": dict(
         category="other",
         text="Machine-checked for ALL Unicode texts (Props/C02.v): AnalyzedSource::new never panics and always terminates "
